@@ -986,7 +986,7 @@ type replayObj struct {
 func (rn *runner) check(w *world, s *snap, pendSpec []string, keyOnlyPhase bool) (damaged bool) {
 	p := rn.p
 	if sig, d := w.pointReads(s); sig != "" {
-		rn.report(w, s, pendSpec, opts{API: "point"}, sig+" before-scans", d)
+		rn.report(w, s, pendSpec, opts{API: "point"}, sig+" before-scans"+sigEngine, d)
 		return true
 	}
 	ts := ^uint64(0)
